@@ -157,7 +157,10 @@ pub fn check_fidelity(sc: &Scenario, log: &[LogRec], mon: &WireMon, quiescent: b
                 }
             }
         }
-        if r_end {
+        // (not for a stream that the receiving application has itself reset meanwhile: what is_end_stream() says about a
+        // stream one has reset is not part of the property; the buffered, complete message is still delivered)
+        let receiver_reset_it = log.iter().any(|x| x.side == to && x.k == k && x.submitted && matches!(x.ev, Ev::Reset(_)));
+        if r_end && !receiver_reset_it {
             if let Some(x) = recs.iter().rev().find(|x| matches!(x.ev, Ev::IsEos(..))) {
                 if let Ev::IsEos(false, _) = x.ev {
                     out.vios.push(("C01.is-end-stream-late".into(), tagd.clone(), format!("stream #{} {:?}: is_end_stream() false after the clean end", k, dir)));
